@@ -617,13 +617,15 @@ func sweepPool(n int, job func(i int, phase *atomic.Value), skip func(i int) boo
 	var wg sync.WaitGroup
 	var worker func()
 	worker = func() {
-		defer wg.Done()
+		// wg.Done is called exactly once per worker: here on a normal exit, by the watchdog when it abandons the
+		// worker (which may never return)
 		runtime.LockOSThread() // so that the thread's CPU time is this worker's
 		goid := sweepGoid()
 		tid := syscall.Gettid()
 		for {
 			i := int(atomic.AddInt64(&next, 1) - 1)
 			if i >= n {
+				wg.Done()
 				return
 			}
 			if skip != nil && skip(i) {
@@ -691,6 +693,7 @@ func sweepPool(n int, job func(i int, phase *atomic.Value), skip func(i int) boo
 					mu.Unlock()
 					wg.Add(1)
 					go worker()
+					wg.Done() // for the abandoned worker
 				}
 			}
 		}
